@@ -379,6 +379,100 @@ def replay_serde(exe, failures):
     return {"status": "not_reproduced" if ran else "unavailable", "summary": "round trips agree natively" if ran else "no scenario could be made concrete", "attempts": tried}
 
 
+def expected_token(text):
+    """what the literal `text` spells, computed here in python (independent of rscel);
+    None when the text is not one well-formed numeric or string literal"""
+    import re as _re
+    import struct
+    line = text.count("\n")
+    col = len(text) - (text.rfind("\n") + 1)
+    span = [0, 0, line, col]
+    m = _re.fullmatch(r"0[xX]([0-9a-fA-F]+)([uU]?)", text)
+    if m:
+        v = int(m.group(1), 16)
+        return {"error": True} if v >= 1 << 64 else {"kind": "UIntLit" if m.group(2) else "IntLit", "value": str(v), "span": span}
+    m = _re.fullmatch(r"([0-9]+)([uU]?)", text)
+    if m:
+        v = int(m.group(1))
+        return {"error": True} if v >= 1 << 64 else {"kind": "UIntLit" if m.group(2) else "IntLit", "value": str(v), "span": span}
+    if _re.fullmatch(r"[0-9]+(\.[0-9]+)?([eE][+-]?[0-9]+)?", text) and _re.search(r"[.eE]", text):
+        try:
+            bits = struct.unpack("<Q", struct.pack("<d", float(text)))[0]
+        except OverflowError:
+            return None
+        return {"kind": "FloatLit", "bits": str(bits), "span": span}
+    if len(text) >= 2 and text[0] in "\"'" :
+        q, i, out = text[0], 1, []
+        simple = {"a": 7, "b": 8, "f": 12, "n": 10, "r": 13, "t": 9, "v": 11, "\\": 92, "'": 39, '"': 34}
+        while True:
+            if i >= len(text):
+                return {"error": True}
+            c = text[i]
+            if c == q:
+                return {"kind": "StringLit", "chars": out, "span": span} if i == len(text) - 1 else None
+            if c != "\\":
+                out.append(ord(c))
+                i += 1
+                continue
+            if i + 1 >= len(text):
+                return {"error": True}
+            e = text[i + 1]
+            i += 2
+            if e in simple:
+                out.append(simple[e])
+                continue
+            w = {"x": 2, "X": 2, "u": 4, "U": 8}.get(e)
+            if w:
+                d = text[i:i + w]
+                if len(d) < w or not _re.fullmatch(r"[0-9a-fA-F]+", d):
+                    return {"error": True}
+                v = int(d, 16)
+                if v >= 0x110000 or 0xD800 <= v < 0xE000:
+                    return {"error": True}
+                out.append(v)
+                i += w
+                continue
+            if e.isdigit():
+                d = e + text[i:i + 2]
+                if len(d) < 3 or not _re.fullmatch(r"[0-7]{3}", d):
+                    return {"error": True}
+                if int(d, 8) > 0o377:
+                    return None
+                out.append(int(d, 8))
+                i += 2
+                continue
+            return None
+    return None
+
+
+def replay_literal(exe, failures):
+    tried = []
+    for f in failures:
+        sc = f.get("scenario")
+        if not sc or sc.get("kind") != "literal":
+            continue
+        exp = expected_token(sc["text"])
+        if exp is None:
+            tried.append({"label": f["label"], "text": sc["text"], "skipped": "the statement does not say what this text denotes"})
+            continue
+        out, why = run(exe, "token", [{"text": sc["text"]}])
+        if out is None:
+            tried.append({"label": f["label"], "skipped": why})
+            continue
+        got = out[0]
+        rec = {"label": f["label"], "text": sc["text"], "expected": exp, "native": got}
+        tried.append(rec)
+        if "error" in exp:
+            ok = "error" in got
+        else:
+            ok = all(got.get(k) == v for k, v in exp.items()) and not got.get("more")
+        if "panic" in got or not ok:
+            rec["reproduced"] = True
+            return {"status": "reproduced", "summary": f"literal {sc['text']!r}: tokenizer gave {got}, the literal spells {exp}", "attempts": tried}
+    ran = any("native" in t for t in tried)
+    return {"status": "not_reproduced" if ran else "unavailable", "summary": "the tokenizer agrees natively on every concrete literal" if ran else "no scenario could be made concrete", "attempts": tried}
+
+
 def main():
     rec_path, out_path, repo, kani_dir, cache = sys.argv[1:6]
     rec = json.load(open(rec_path))
@@ -395,6 +489,8 @@ def main():
             r = r2 if r2["status"] == "reproduced" else r
     elif any((f.get("scenario") or {}).get("kind") == "vm" for f in fails):
         r = replay_vm(exe, fails)
+    elif any((f.get("scenario") or {}).get("kind") == "literal" for f in fails):
+        r = replay_literal(exe, fails)
     elif any((f.get("scenario") or {}).get("kind") == "serde" for f in fails):
         r = replay_serde(exe, fails)
     elif any((f.get("scenario") or {}).get("kind") == "resolve" for f in fails):
